@@ -51,6 +51,27 @@ def countSpecB (x rate : Dy) (res : Except SamplingErr Nat) : Bool :=
     let n := roundHA x.m x.den
     isRoundHAB x.m x.den n && decide (0 ≤ n) && decide (n < u32Max) && !alignedB x rate n
 
+/-- The same specification without fixing WHICH error is reported when both apply (rounded count out
+of range and duration misaligned): the property does not constrain the order of the two tests.
+`CountSpec` implies it (`Props.C32_count_loose`); this is the form evaluated on the implementation's
+outputs. -/
+def CountSpecLoose (x rate : Dy) (res : Except SamplingErr Nat) : Prop :=
+  ∃ n : Int, IsRoundHA x.m x.den n ∧
+    match res with
+    | .ok k => (k : Int) = n ∧ n < u32Max ∧ Aligned x rate n
+    | .error .outOfRange => n < 0 ∨ u32Max ≤ n
+    | .error .misaligned => ¬ Aligned x rate n
+
+def countSpecLooseB (x rate : Dy) (res : Except SamplingErr Nat) : Bool :=
+  match res with
+  | .ok k => isRoundHAB x.m x.den k && decide ((k : Int) < u32Max) && alignedB x rate k
+  | .error .outOfRange =>
+    let n := roundHA x.m x.den
+    isRoundHAB x.m x.den n && (decide (n < 0) || decide (u32Max ≤ n))
+  | .error .misaligned =>
+    let n := roundHA x.m x.den
+    isRoundHAB x.m x.den n && !alignedB x rate n
+
 /-- **Padding specification**: the number of padding samples is `⌈pad·rate⌉`, clamped to
 `[0, usize::MAX]`. -/
 def PadSpec (x : Dy) (k : Nat) : Prop :=
